@@ -236,4 +236,78 @@ CLAIMS = {
                 "time never raises when a record is formatted.",
         "note": _TB,
     },
+    "C01": {
+        "level": "other",
+        "technique": "decision tables by predicate abstraction (three-way "
+                     "ordering atoms) cross-checked against a parsed "
+                     "reference, per loop iteration; structural wrapper rule "
+                     "for datatype calls",
+        "text": "Decides necessary conditions of the 'only if' direction: "
+                "the section-name rule table, the orientation of every "
+                "occurrence-bound comparison, the slot-filling typestate of "
+                "addValue/addSection (name reuse refused before "
+                "registration; single-valued slot filled twice refused; "
+                "unknown key refused), the three-way slot search with its "
+                "fall-through raise, the type gate of startSection / "
+                "createChildMatcher, and that every call through a datatype "
+                "slot in matcher.py/info.py is wrapped into "
+                "DataConversionError.  Does not decide the 'if' direction "
+                "(that conforming texts are accepted) nor interactions that "
+                "depend on concrete schemas; these need execution.",
+        "note": _TB + "  Loops are analysed per iteration (one child / one "
+                "value); the search loop of addValue through its break / "
+                "else exits.",
+    },
+    "C02": {
+        "level": "other",
+        "technique": "per-child decision tables of the five slot-handling "
+                     "matcher methods cross-checked against a parsed "
+                     "reference; order-operation scan with positive control",
+        "text": "Decides that slot creation, filling, default injection and "
+                "conversion agree on the container kind per (wildcard, "
+                "section, multi); that defaults are copies injected only "
+                "into empty slots; that every value is converted through its "
+                "own child's datatype (sections through their definition's "
+                "datatype); that no order-changing operation is applied in "
+                "the matcher; the attribute-name derivation; the identity "
+                "accessors of section values and that the schema datatype is "
+                "applied last.  Does not decide equality of converted values "
+                "with reference conversions, nor equality of whole trees.",
+        "note": _TB + "  Loops are analysed per iteration.",
+    },
+    "C14": {
+        "level": "other",
+        "technique": "decision-table cross-check of the override machinery "
+                     "+ sibling agreement + raw-key taint rule + who-may-call "
+                     "rule for substitution",
+        "text": "Decides that specifier validation precedes recording; that "
+                "the overriding matcher converts keys exactly like the base "
+                "matcher, consults only the normalised key and suppresses "
+                "exactly overridden keys; that pending values go through the "
+                "base addValue in stored order before the base finish and "
+                "leftovers are refused; that only the configuration parser "
+                "calls $-substitution; path-item selection, consumption and "
+                "tail hand-down; the key-type wrapper and position order at "
+                "the hand-off; extended loader iff overrides.  Does not "
+                "decide equality with the hand-edited text.",
+        "note": _TB,
+    },
+    "C16": {
+        "level": "other",
+        "technique": "CFG path rule (no raise reachable from a callback; "
+                     "validation dominates) + decision-table cross-check + "
+                     "value-origin analysis of the shared handler list",
+        "text": "Decides all-or-nothing structurally (every raise of "
+                "__call__ precedes every callback invocation on all CFG "
+                "paths; the callback loop is guarded by the missing-name "
+                "test), the decision table of __call__/__init__/__len__, the "
+                "(handler, converted value) pairing in schema order with the "
+                "schema-level handler last, that one list object created per "
+                "load is shared by all matchers and handed to the composite "
+                "handler, and that both sides normalise handler names with "
+                "basic-key.  Does not decide the closing order of nested "
+                "sections (C03's stack discipline composed with the "
+                "pairing).",
+        "note": _TB,
+    },
 }
